@@ -70,6 +70,24 @@ def run(tier):
     mc_asan = vmd.build_mc(asan)
     work = os.path.join(common.scratch(), "c17")
     hand = sorted(glob.glob(os.path.join(common.VERIF, "vf/corpus/*.nano")) + glob.glob(os.path.join(common.VERIF, "vf/corpus_vm/*.nano")))
+    # exit-status matrix (main's result modulo 256, negative results included) and output-size matrix (ONE print of n
+    # characters, n around every buffer size between the VM's stream, the protocol frame and the client's chunking)
+    gen = os.path.join(work, "gen")
+    os.makedirs(gen, exist_ok=True)
+    for v in (0, 1, 7, 127, 128, 255, 256, 257, 65535, 65536, -1, -2, -127, -128, -255, -256, -257, 2147483647, -2147483648, 2147483648, 1099511627779, -9223372036854775807):
+        pth = os.path.join(gen, "g_exit_%s.nano" % str(v).replace("-", "m"))
+        with open(pth, "w") as f:
+            f.write('fn main() -> int {\n    (println "exit-matrix")\n    return %d\n}\nshadow main { assert true }\n' % v)
+        hand.append(pth)
+    for n in ((10, 4095, 4096, 4097, 8191, 8192, 8193, 16383, 16384, 16385, 24575, 24576, 24577, 32768, 65535, 65536, 65537, 200000) if tier == "quick" else
+              tuple(sorted(set([10, 200000, 1048576] + [k * 4096 + d for k in range(1, 20) for d in (-1, 0, 1)])))):
+        pth = os.path.join(gen, "g_line_%d.nano" % n)
+        with open(pth, "w") as f:
+            f.write('fn rep(s: string, n: int) -> string {\n    let mut out: string = ""\n    let mut piece: string = s\n    let mut k: int = n\n'
+                    '    while (> k 0) {\n        if (== (%% k 2) 1) { set out (+ out piece) } else {}\n        set piece (+ piece piece)\n        set k (/ k 2)\n    }\n    return out\n}\n'
+                    'shadow rep { assert (== (str_length (rep "ab" 3)) 6) }\n'
+                    'fn main() -> int {\n    let line: string = (rep "x" %d)\n    (println "before")\n    (println line)\n    (println "after")\n    (print line)\n    (println "")\n    return (%% (str_length line) 200)\n}\nshadow main { assert true }\n' % n)
+        hand.append(pth)
     mods = vmd.compile_corpus(plain, os.path.join(work, "mods"), extra_sources=hand)
 
     # ------------------------------------------------------------------ (A) transparency
